@@ -311,7 +311,13 @@ def run(ctx) -> None:
     for n in source.walk_own(ntf):
         if isinstance(n, ast.For):
             body_src = " ".join(source.src(s) for s in n.body)
-            if "number_to_roman_like_numeral" in body_src or "len(known_environments)" in body_src:
+            # a loop that generates names: the roman-numeral suffix of duplicates, or 'env<len(table)>' where the table is a
+            # dictionary that the loop itself fills
+            fills = {t.value.id for x in ast.walk(n) if isinstance(x, ast.Assign) for t in x.targets
+                     if isinstance(t, ast.Subscript) and isinstance(t.value, ast.Name)}
+            numbered = any(isinstance(x, ast.Call) and call_name(x) == "len" and x.args and isinstance(x.args[0], ast.Name) and x.args[0].id in fills
+                           and any(isinstance(a, (ast.JoinedStr, ast.BinOp)) for a in source.ancestors(x)) for x in ast.walk(n))
+            if "number_to_roman_like_numeral" in body_src or numbered:
                 naming_loops.append(n)
     ctx.floor("C15.R4-naming-over-ordered", len(naming_loops), 2, "naming loops in namespace_to_flowir")
     for lp in naming_loops:
